@@ -574,6 +574,64 @@ theorem addFk_mono {d} {s s' : Schema} {c n cols p pc ix} (hs : addFk d s c n co
   have h3 := fkIndex_mono h2
   exact ⟨h1.1.trans h3, h1.2.mono h3⟩
 
+/-- the table `t` has an index on exactly the column list `cols` with the given primary-key kind; for a non-primary
+    index its uniqueness is `uniq` -/
+def HasIdx (s : Schema) (t : Name) (cols : List Name) (isPk : PkKind) (uniq : Bool) : Prop :=
+  ∃ i ∈ s.indexes, i.table = t ∧ i.cols = cols ∧ i.isPk = isPk ∧ (isPk = .no → i.isUnique = uniq)
+
+theorem HasIdx.mono {s s' : Schema} (h : Mono s s') {t cols k u} : HasIdx s t cols k u → HasIdx s' t cols k u := by
+  rintro ⟨i, hi, h1⟩; exact ⟨i, h.idx i hi, h1⟩
+
+/-- a successful `add_index` leaves an index with the requested table, columns, primary-key kind and uniqueness in
+    the schema (either the one it created, or the identical one that existed) -/
+theorem addIndex_has {d} {s s' : Schema} {t arg cols isPk isUnique m2m}
+    (hs : addIndex d s t arg cols isPk isUnique m2m = .ok s') : HasIdx s' t cols isPk (isUnique.getD false) := by
+  unfold addIndex at hs
+  cases hf : findTable s t with
+  | none => simp [hf] at hs
+  | some tbl =>
+    simp only [hf] at hs
+    by_cases h1 : cols.any (fun c => !(tableCols s t).any (·.name == c)) = true
+    · simp [h1] at hs
+    · by_cases h2 : arg = .false
+      · simp [h1, h2] at hs
+      · simp only [h1, h2, if_false] at hs
+        cases hx : (tableIdx s t).find? (·.cols == cols) with
+        | some ix =>
+          simp only [hx, sameIndex] at hs
+          by_cases hsame : ix.name = (indexNameOf d t arg cols isPk isUnique m2m).map (·.1) ∧ ix.isPk = isPk ∧ some ix.isUnique = isUnique
+          · rw [if_pos hsame] at hs; cases hs
+            have hm := List.mem_of_find?_eq_some hx
+            have hc := List.find?_some hx
+            simp only [tableIdx, List.mem_filter] at hm
+            refine ⟨ix, hm.1, by simpa using hm.2, by simpa using hc, hsame.2.1, ?_⟩
+            intro _
+            rw [← hsame.2.2]; rfl
+          · rw [if_neg hsame] at hs
+            by_cases hc : cols = []
+            · rw [if_pos hc] at hs; cases hs
+            · rw [if_neg hc] at hs; cases hs
+        | none =>
+          simp only [hx, newIndex] at hs
+          by_cases hc : cols = []
+          · rw [if_pos hc] at hs; cases hs
+          rw [if_neg hc] at hs
+          by_cases hp : isPk ≠ .no ∧ tbl.pkSet = true
+          · rw [if_pos hp] at hs; cases hs
+          rw [if_neg hp] at hs
+          by_cases hu : isPk ≠ .no ∧ isUnique = some false
+          · rw [if_pos hu] at hs; cases hs
+          rw [if_neg hu] at hs
+          by_cases hnt : nameTaken s ((indexNameOf d t arg cols isPk isUnique m2m).map (·.1)) = true
+          · rw [if_pos hnt] at hs; cases hs
+          rw [if_neg hnt] at hs
+          cases hs
+          refine ⟨{ table := t, name := (indexNameOf d t arg cols isPk isUnique m2m).map (·.1),
+                     src := ((indexNameOf d t arg cols isPk isUnique m2m).map (·.2)).getD .norm, cols := cols, isPk := isPk,
+                     isUnique := if isPk ≠ .no then true else isUnique.getD false }, by simp [commitIndex], rfl, rfl, rfl, ?_⟩
+          intro hno
+          simp [hno]
+
 /-- at most one column of a given name per table -/
 theorem col_unique {s : Schema} (h : Inv s) {c1 : Column} (h1 : c1 ∈ s.columns) :
     (s.columns.filter (fun c => c.table == c1.table && c.name == c1.name)).length = 1 := by
